@@ -265,7 +265,7 @@ def run_property(prop, tier, seed, only_archs=None, scale=None, extra_args=None,
         env = j.get("env", {})
         if u["kind"] == "exe":
             for a in archs:
-                outfile = os.path.join(rundir, "%s-%s-%s.jsonl" % (j["unit"], j.get("variant", "min"), a))
+                outfile = os.path.join(rundir, "%s-%s%s-%s.jsonl" % (j["unit"], j.get("variant", "min"), j.get("tag", ""), a))
                 cmd = j.get("wrap", []) + [os.path.join(bdir, a), "--out", outfile] + args
                 futs.append((j, a, pool.submit(run_proc, cmd, outfile, timeout, env), cmd))
         else:  # runner loading one .so per arch
@@ -325,6 +325,9 @@ def run_property(prop, tier, seed, only_archs=None, scale=None, extra_args=None,
                 done = True
             elif t == "inconclusive":
                 inconclusive.append("%s: %s" % (tag, ev.get("why", "")))
+        if j.get("tag") == "valgrind":
+            for m in re.finditer(r"(Invalid (?:read|write) of size \d+[^\n]*|Conditional jump or move depends on uninitialised[^\n]*|Use of uninitialised value[^\n]*)", r["stderr"]):
+                san_reports.append({"job": tag, "report": "valgrind: " + m.group(1)[:300]})
         # sanitizer reports on stderr
         if VARIANTS[j.get("variant", "min")].get("sanitizer"):
             for m in re.finditer(r"(runtime error: [^\n]*|ERROR: AddressSanitizer: [^\n]*|ERROR: LeakSanitizer: [^\n]*)", r["stderr"]):
